@@ -214,7 +214,7 @@ fn main() {
                 }
                 for row in m.rows() {
                     if let Ok(Some(ix)) = guarded(|| grid.index_of(&row)) {
-                        if ix.iter().zip(&plens).all(|(i, s)| i < s) {
+                        if ix.len() == plens.len() && ix.iter().zip(&plens).all(|(i, s)| i < s) {
                             let cell = grid.index(&ix);
                             lx.check(cell.iter().zip(row.iter()).all(|(r, v)| r.start <= *v && *v < r.end), "C13/grid-cell-does-not-contain-point", || format!("GridBuilder grid: index(index_of({:?})) = {:?}", row, cell));
                         } else {
@@ -271,7 +271,7 @@ fn main() {
                         Ok(got) => {
                             lx.check(got == want, "C13/grid-index-of", || format!("grid over {:?}: index_of({:?}) = {:?}, expected {:?}", sets, pt, got, want));
                             if let Some(ix) = &got {
-                                if ix.iter().zip(&shape).all(|(i, s)| i < s) {
+                                if ix.len() == shape.len() && ix.iter().zip(&shape).all(|(i, s)| i < s) {
                                     let cell = grid.index(ix);
                                     lx.check(cell.iter().zip(&pt).all(|(r, v)| r.start <= *v && *v < r.end), "C13/grid-cell-does-not-contain-point", || format!("grid over {:?}: index(index_of({:?})) = {:?}", sets, pt, cell));
                                 }
